@@ -183,7 +183,7 @@ structure PoolOut (σ ε : Type) where
   st      : σ
   evs     : List ε
   sources : List Nat   -- ids inserted into processedNodes (the nodes classified over the node-level
-                       -- or the prod high threshold, only when the pool got as far as evicting)
+                       -- or the prod high threshold, once they have been marked abnormal)
 
 /-- one pool's share of a Balance call. -/
 structure Seg (ε : Type) where
@@ -206,15 +206,21 @@ def balancePools {σ ε P : Type} (selOf : P → Option Labels) (run : Nat → P
       (st', ⟨i, ids, o.evs, o.sources⟩ :: segs)
 
 /-- processOneNodePool as the loop of Balance sees it: `processedNodes.Insert` happens for the nodes
-    classified over the node-level high threshold (`sourceNodes`) and, since fix 55e1bc4, for the nodes
-    classified over the prod high threshold (`prodHighNodes`) - only when none of the early exits
-    applied. -/
+    classified over the node-level high threshold (`sourceNodes`) and (fix 55e1bc4) for the nodes
+    classified over the prod high threshold (`prodHighNodes`) - since fix 3c8e41b right after the two
+    filterRealAbnormalNodes calls, i.e. as soon as these nodes have got their abnormal mark and whichever
+    way the pool ends afterwards (only the exits "no nodes" and "no source nodes" come before). -/
 def poolSources (r : RoundIn) : List Nat :=
   (ofClass .high r.nodes).map (·.id) ++ (ofClass .prodHigh r.nodes).map (·.id)
 
 def poolStep (cfg : Cfg) (r : RoundIn) (st : St) : PoolOut St Ev :=
   let o := runRound cfg st r
-  ⟨o.st, o.evs, if o.exit = 0 then poolSources r else []⟩
+  ⟨o.st, o.evs, if o.exit = 1 ∨ o.exit = 2 then [] else poolSources r⟩
+
+/-- getNodeUsage only looks at the nodes filterNodes returned: the pool's round input holds no other
+    node (the driver filters the wire nodes by the pool's ids in exactly this way). -/
+def RoundIn.restrict (r : RoundIn) (ids : List Nat) : RoundIn :=
+  { r with nodes := r.nodes.filter fun n => ids.contains n.id }
 
 /-- LowNodeLoad.Balance with processOneNodePool = `runRound`; `mk` builds the pool's round input
     (measurement, thresholds, orders) from the filtered node ids. -/
